@@ -1,4 +1,4 @@
-_E1 = ["lnwallet/e1_engine_test.go", "lnwallet/e1_oracles_test.go"]
+_E1 = ["lnwallet/e1_engine_test.go", "lnwallet/e1_oracles_test.go", "lnwallet/e1_fork_test.go", "lnwallet/e1_debug_test.go"]
 PROP = {
     "level": "exploration",
     "technique": "runtime monitor over two real LightningChannel state machines: conservation / cross-party identity / BOLT-3 output exactness / ledger oracles after every step of PRNG asynchronous schedules",
